@@ -152,6 +152,9 @@ def lexer_models():
         if s.s is None:
             raise Unmodelled('split of symbolic text')
         pieces = ['']
+        pat = args[1]
+        if z3.is_bv(pat):
+            return ListIter([Str(p_) for p_ in s.s.split(chr(conc(pat)))])
         for ch in s.s:
             if ctx.decide(ctx.call_closure(args[1], [BitVecVal(ord(ch), 32)])):
                 pieces.append('')
